@@ -341,6 +341,42 @@ func init() {
 						judgeLoopCalls(c, []model.Value{r1, r1, r2}, name, args, true)
 					}
 				}})
+			// integers around every power of ten and of two, and strings of nines: digit counts and conversions
+			// that go through floating point go wrong here first
+			var ladder []model.Value
+			p10 := int64(1)
+			for k := 1; k <= 18; k++ {
+				p10 *= 10
+				for _, d := range []int64{-2, -1, 0, 1, 2} {
+					ladder = append(ladder, model.Int(p10+d), model.Int(-(p10 + d)))
+				}
+			}
+			for k := uint(8); k <= 62; k += 3 {
+				for _, d := range []int64{-1, 0, 1} {
+					ladder = append(ladder, model.Int(int64(1)<<k+d), model.Int(-(int64(1)<<k + d)))
+				}
+			}
+			for _, v := range []int64{99999999999999999, 999999999999999999, 99999999999999989, 999999999999999872, 9007199254740993, 4503599627370497, 123456789012345678} {
+				ladder = append(ladder, model.Int(v), model.Int(-v))
+			}
+			intNames := model.BuiltinNames(model.KInt)
+			secs = append(secs, core.Section{Name: "integer-ladder", Exhaustive: true, N: len(ladder),
+				Run: func(c *core.Ctx, i int) {
+					for _, n := range intNames {
+						judgeCall(c, ladder[i], n, nil)
+						judgeCall(c, ladder[i], n, []model.Value{model.Str(",")})
+						judgeCall(c, ladder[i], n, []model.Value{model.Str("."), model.Int(3)})
+					}
+					// the same magnitudes as floats and as digit strings
+					f := model.Float(float64(ladder[i].I))
+					for _, n := range model.BuiltinNames(model.KFloat) {
+						judgeCall(c, f, n, nil)
+					}
+					ds := model.Str(fmt.Sprint(ladder[i].I))
+					for _, n := range []string{"len", "decimal", "reverse", "at", "first", "last"} {
+						judgeCall(c, ds, n, nil)
+					}
+				}})
 			secs = append(secs, core.Section{Name: "slice-cube", Exhaustive: true, N: 6,
 				Run: func(c *core.Ctx, n int) {
 					var el []model.Value
